@@ -422,6 +422,10 @@ func (ex *Exec) binop(fr *Frame, st *State, op token.Token, a, b Val, t types.Ty
 			}
 			return UF("shr", SInt, x, y)
 		case token.AND:
+			// x & (2^k - 1) on an unsigned operand is x mod 2^k
+			if n, ok := y.IsInt(); ok && n > 0 && n < 1<<62 && (n+1)&n == 0 && isUnsigned(t) {
+				return Rem(x, IntT(n+1))
+			}
 			return UF("bitand", SInt, x, y)
 		case token.OR:
 			return UF("bitor", SInt, x, y)
